@@ -192,6 +192,39 @@ CLAIMS = {
         note=TRUST + 'The list induction (step contract => decode(encode(list)) = list for every list) is meta-level; end-to-end instances for short lists are bounded stand-ins.',
         technique='contract-based deductive verification: entry codec VCs + parse-loop step contracts; finite tables by exhaustive enumeration',
         design='5/C18'),
+    'C19': dict(
+        level='proof',
+        text='Registration writes to exactly the table of its decorator and rejects empty and duplicate routes; route() invokes exactly one handler - the one registered for '
+             'exactly this interaction type and route, else that type\'s unknown-route handler, else raises RSocketUnknownRoute and invokes nothing - for every table shape; '
+             'per-parameter argument binding (payload / parsed composite metadata / deserialised by annotation); _parse_and_route takes the first tag of the first routing '
+             'entry wherever it sits, awaits the verifier with (route, first authentication entry) BEFORE routing, routes nothing when the entry is missing or the verifier '
+             'raises, and leaves no state on the handler object (so no earlier request can open the gate); each of the five entry points passes its own type and confines failure '
+             'to its own request.',
+        note=TRUST + 'Routes are compared only for equality, so generic distinct route strings stand for all routes (parametricity); composite decoding is C18; handlers and verifier abstract.',
+        technique='contract-based deductive verification: exact-invocation contracts over a ghost call log, enumeration of table shapes',
+        design='5/C19'),
+    'C20': dict(
+        level='other',
+        text='For both the Rx and the ReactiveX package, proved on the real code: every RequestHandler method of the adapter awaits the delegate method of the same name exactly '
+             'once with the same arguments (and terminates); request_stream/channel wrap plain observables in the buffering publisher and back-pressure-aware factories in the '
+             'feedback publisher, observer wrapped with its limit; the client passes request_limit both as initial_request_n and as batch size; RxSubscriber / '
+             'RxSubscriberFromObserver forward every element once, in order, preserve completion and errors, and request exactly limit_rate when a window is full; disposing '
+             'the result observable cancels both tasks and the core subscription exactly once; the feedback subject receives exactly the credited amounts; one event per unit '
+             'of credit in the event forwarder. "other" because the equivalence "through Rx operators" rests on an ASSUMED model of the rx / reactivex libraries.',
+        note=TRUST + 'rx / reactivex library behaviour (Subject, create, pipe/operators, from_future) is an assumed contract (pyvc.rxmodel), not verified.',
+        technique='contract-based deductive verification of the adapter code against assumed library contracts',
+        design='5/C20'),
+    'C01': dict(
+        level='other',
+        text='Per-hop contracts, each proved on one endpoint: (1) request side - fresh id, handler registered under exactly that id, request frame carries exactly the payload '
+             'bytes, that id and the configured request-n; (2) emission - send_payload/send_error/send_complete queue exactly one frame with those bytes on that stream; wrappers '
+             'use their own id; (3) wire - C02 codec, C03 fragmentation/reassembly, C04 chunking, C05 per-stream order; (4) dispatch - a completed frame with id s reaches the '
+             'handler registered under s and no other, request frames reach the handler method of their type with Payload(frame bytes); (5) delivery - each handler delivers '
+             'exactly the frame bytes once to its own subscriber / future. The composition of the hops over two endpoints and a reliable FIFO pipe (L-E2E) is a hand argument, '
+             'not machine-checked - hence "other".',
+        note=TRUST + 'Not decided by this technique: composition across two endpoints and the network, scheduler fairness, late futures.',
+        technique='contract-based deductive verification of every hop; end-to-end composition by hand lemma',
+        design='5/C01'),
 }
 
 NOT_YET = 'contracts for this property are not built yet'
